@@ -222,6 +222,12 @@ def compare_with_model(ctx, case, res, out):
             d = cvlib.same_rhs(ml[l], il[l], len(mvars), case['seed'])
             if d:
                 return 'conversion %d: right-hand side of %r: model and implementation %s' % (j, l, d)
+    # the last element of the model's answer is (2 b), b = wf_state of the initial state
+    if out and isinstance(out[-1], list) and len(out[-1]) == 2 and out[-1][0] == 2:
+        ctx.hist['wf_state=%d' % out[-1][1]] = ctx.hist.get('wf_state=%d' % out[-1][1], 0) + 1
+        if out[-1] == [2, 0]:
+            return ('the initial state of the generated model does not satisfy wf_state '
+                    '(premise of C06_sequence_equiv_from_wf)')
     return None
 
 
@@ -290,8 +296,9 @@ def run(ctx):
                 'histories of 1-4 conversions: any variable incl. previously created ones, any unit of its family (equivalent '
                 'ones included), both directions, both move_annotations; plus bundled documents; non-trivial = a conversion '
                 'with factor != 1 happened')
-    ctx.trusted += ['the syntactic premises of the theorems (step_ok) are evaluated by the extracted model before every conversion '
-                    'of every case; free_spec_code re-computes the refinement proved in C06FoldP.v as a cross-check',
+    ctx.trusted += ['wf_state of the INITIAL state of every case is evaluated by the extracted model (premise of '
+                    'C06_sequence_equiv_from_wf; it is an invariant: C06_wf_preserved, and implies the per-step premises: '
+                    'C06_wf_implies_step_ok); step_ok per step and free_spec_code are re-computed as cross-checks only',
                     'conversion factors restricted to rationals with prime factors 2, 3, 5 (exact unit vectors)',
                     'SymPy builds / re-evaluates products: right-hand sides compared semantically (values + referenced atoms)']
     cases = load_corpus() + [gen_case(ctx.seed * 100000 + i) for i in range(n)]
